@@ -1,0 +1,142 @@
+//! Verification hooks, compiled only under `cfg(any(kani, xet_verif))`.
+//!
+//! Thin `pub` wrappers around private items of the disk cache so that out-of-tree proof harnesses
+//! and replay tests can drive them, a constructor / read-only snapshot of the tracked state, and a
+//! schedule point.  Nothing here changes the behaviour of the cache.
+use std::io::{Read, Seek, Write};
+use std::path::PathBuf;
+use std::sync::{Arc, Mutex};
+
+use cas_types::{ChunkRange, Key};
+
+use super::cache_file_header::CacheFileHeader;
+use super::cache_item::{CacheItem, VerificationCell};
+use super::{CacheState, DiskCache};
+use crate::error::ChunkCacheError;
+use crate::CacheRange;
+
+/// (range.start, range.end, len, checksum)
+pub type ItemTuple = (u32, u32, u64, u32);
+
+fn to_item(t: &ItemTuple) -> CacheItem {
+    CacheItem {
+        range: ChunkRange { start: t.0, end: t.1 },
+        len: t.2,
+        checksum: t.3,
+    }
+}
+
+pub fn try_parse_key(file_name: &[u8]) -> Result<Key, ChunkCacheError> {
+    super::try_parse_key(file_name)
+}
+
+pub fn key_dir(key: &Key) -> PathBuf {
+    super::key_dir(key)
+}
+
+pub fn strictly_increasing(chunk_byte_indices: &[u32]) -> bool {
+    super::strictly_increasing(chunk_byte_indices)
+}
+
+pub fn item_file_name(item: &ItemTuple) -> Result<String, ChunkCacheError> {
+    to_item(item).file_name()
+}
+
+pub fn item_parse(file_name: &[u8]) -> Result<ItemTuple, ChunkCacheError> {
+    let i = CacheItem::parse(file_name)?;
+    Ok((i.range.start, i.range.end, i.len, i.checksum))
+}
+
+pub fn header_serialize<W: Write>(chunk_byte_indices: &[u32], writer: &mut W) -> Result<usize, std::io::Error> {
+    let h = CacheFileHeader::new(chunk_byte_indices);
+    h.serialize(writer)?;
+    Ok(h.header_len())
+}
+
+pub fn header_deserialize<R: Read + Seek>(reader: &mut R) -> Result<Vec<u32>, ChunkCacheError> {
+    Ok(CacheFileHeader::deserialize(reader)?.chunk_byte_indices)
+}
+
+/// `CacheFileHeader::deserialize` followed by `get_range_from_cache_file`, as `get_impl` does.
+pub fn read_range_from_cache_file<R: Read + Seek>(
+    file_contents: &mut R,
+    range: &ChunkRange,
+    start: u32,
+) -> Result<CacheRange, ChunkCacheError> {
+    let header = CacheFileHeader::deserialize(file_contents)?;
+    super::get_range_from_cache_file(&header, file_contents, range, start)
+}
+
+/// `get_range_from_cache_file` on a header given directly.
+pub fn get_range_from_cache_file<R: Read + Seek>(
+    chunk_byte_indices: Vec<u32>,
+    file_contents: &mut R,
+    range: &ChunkRange,
+    start: u32,
+) -> Result<CacheRange, ChunkCacheError> {
+    let header = CacheFileHeader::new(chunk_byte_indices);
+    super::get_range_from_cache_file(&header, file_contents, range, start)
+}
+
+impl DiskCache {
+    /// Builds a cache object directly from a tracked state (no directory scan).
+    pub fn verif_from_state(
+        cache_root: PathBuf,
+        capacity: u64,
+        items: Vec<(Key, Vec<ItemTuple>)>,
+        num_items: usize,
+        total_bytes: u64,
+    ) -> Self {
+        let mut inner = std::collections::HashMap::new();
+        for (k, v) in items {
+            let cells: Vec<VerificationCell<CacheItem>> =
+                v.iter().map(|t| VerificationCell::new_verified(to_item(t))).collect();
+            inner.insert(k, cells);
+        }
+        Self {
+            cache_root,
+            capacity,
+            state: Arc::new(Mutex::new(CacheState::new(inner, num_items, total_bytes))),
+        }
+    }
+
+    /// Inserts an item into the tracked state the way a completed `put` of exactly that item
+    /// commits it (counters updated), without touching the file system.
+    pub fn verif_commit_tracked(&self, key: &Key, item: &ItemTuple) {
+        let mut state = self.state.lock().unwrap();
+        state.num_items += 1;
+        state.total_bytes += item.2;
+        state.inner.entry(key.clone()).or_default().push(VerificationCell::new_verified(to_item(item)));
+    }
+
+    /// Read-only snapshot: per key the tracked items, plus the two counters.
+    pub fn verif_snapshot(&self) -> (Vec<(Key, Vec<ItemTuple>)>, usize, u64) {
+        let state = self.state.lock().unwrap();
+        let mut v = Vec::new();
+        for (k, items) in state.inner.iter() {
+            v.push((k.clone(), items.iter().map(|i| (i.range.start, i.range.end, i.len, i.checksum)).collect()));
+        }
+        (v, state.num_items, state.total_bytes)
+    }
+
+    pub fn verif_item_path(&self, key: &Key, item: &ItemTuple) -> Result<PathBuf, ChunkCacheError> {
+        self.item_path(key, &to_item(item))
+    }
+}
+
+type SchedFn = Box<dyn Fn(&DiskCache, &'static str) + Send + Sync>;
+static SCHEDULE_HOOK: Mutex<Option<SchedFn>> = Mutex::new(None);
+
+/// Installs (or clears) the callback run at every schedule point.
+pub fn set_schedule_hook(f: Option<SchedFn>) {
+    *SCHEDULE_HOOK.lock().unwrap() = f;
+}
+
+/// A schedule point: a place outside the state lock where another thread's operation may be
+/// interleaved.  Proof harnesses stub this function; replay tests install a callback.
+pub fn schedule_point(cache: &DiskCache, name: &'static str) {
+    let g = SCHEDULE_HOOK.lock().unwrap();
+    if let Some(f) = g.as_ref() {
+        f(cache, name);
+    }
+}
